@@ -200,6 +200,10 @@ pub struct PageWalker<H> {
 
     #[cfg(test)]
     inhibit_elision: bool,
+
+    // verification twin of `inhibit_elision` (the harness is not built with `cfg(test)`).
+    #[cfg(nomt_verif)]
+    verif_inhibit_elision: bool,
 }
 
 impl<H: NodeHasher> PageWalker<H> {
@@ -231,6 +235,8 @@ impl<H: NodeHasher> PageWalker<H> {
             reconstruction,
             #[cfg(test)]
             inhibit_elision: false,
+            #[cfg(nomt_verif)]
+            verif_inhibit_elision: false,
         }
     }
 
@@ -870,6 +876,8 @@ impl<H: NodeHasher> PageWalker<H> {
             #[cfg(test)]
             let elide = page_leaves_counter + children_leaves_counter < PAGE_ELISION_THRESHOLD
                 && !self.inhibit_elision;
+            #[cfg(nomt_verif)]
+            let elide = elide && !self.verif_inhibit_elision;
 
             if elide {
                 // The total number of leaves in the subtree of this pages is lower than the threshold.
@@ -1023,6 +1031,438 @@ pub fn reconstruct_pages<H: nomt_core::hasher::NodeHasher>(
             reconstructed_page.children_leaves_counter,
         )
     }))
+}
+
+/// Verification hook (H14): the real [`PageWalker`] over an in-memory page set, driven call by call.
+#[cfg(nomt_verif)]
+pub mod verif {
+    use super::{
+        count_leaves, reconstruct_pages, Output, PageSet, PageWalker, StackPage, UpdatedPage,
+    };
+    use crate::{
+        bitbox::BucketIndex,
+        hasher::Blake3Hasher,
+        io::PagePool,
+        merkle::{page_set::PageOrigin, BucketInfo, ElidedChildren},
+        page_cache::{Page, PageMut, NODES_PER_PAGE},
+        page_diff::PageDiff,
+    };
+    use bitvec::prelude::*;
+    use nomt_core::{
+        page_id::PageId,
+        trie::{KeyPath, Node, ValueHash},
+        trie_pos::TriePosition,
+    };
+    use std::collections::HashMap;
+
+    /// The observable part of a merkle page: 126 node slots and the elided-children bitfield.
+    #[derive(Clone, Debug, PartialEq, Eq)]
+    pub struct PageData {
+        pub nodes: Vec<Node>,
+        pub elided: u64,
+    }
+
+    /// `BucketInfo` without the shared cell: `Some(n)` = `Known(n)`, `None` = `Fresh`.
+    pub type Bucket = Option<u64>;
+
+    /// `PageOrigin`.
+    #[derive(Clone, Debug, PartialEq, Eq)]
+    pub enum Origin {
+        Persisted(Bucket),
+        Reconstructed {
+            page_leaves_counter: u64,
+            children_leaves_counter: u64,
+            diff: [u64; 2],
+        },
+    }
+
+    fn bucket_in(b: Bucket) -> BucketInfo {
+        match b {
+            Some(n) => BucketInfo::Known(BucketIndex::verif_new(n)),
+            None => BucketInfo::Fresh,
+        }
+    }
+
+    fn bucket_out(b: &BucketInfo) -> Bucket {
+        match b {
+            BucketInfo::Known(b) => Some(b.verif_index()),
+            BucketInfo::Dependent(b) => b.get().map(|b| b.verif_index()),
+            BucketInfo::Fresh => None,
+        }
+    }
+
+    fn origin_in(o: &Origin) -> PageOrigin {
+        match o {
+            Origin::Persisted(b) => PageOrigin::Persisted(bucket_in(*b)),
+            Origin::Reconstructed {
+                page_leaves_counter,
+                children_leaves_counter,
+                diff,
+            } => PageOrigin::Reconstructed {
+                page_leaves_counter: *page_leaves_counter,
+                children_leaves_counter: *children_leaves_counter,
+                diff: PageDiff::verif_from_words(*diff),
+            },
+        }
+    }
+
+    fn origin_out(o: &PageOrigin) -> Origin {
+        match o {
+            PageOrigin::Persisted(b) => Origin::Persisted(bucket_out(b)),
+            PageOrigin::Reconstructed {
+                page_leaves_counter,
+                children_leaves_counter,
+                diff,
+            } => Origin::Reconstructed {
+                page_leaves_counter: *page_leaves_counter,
+                children_leaves_counter: *children_leaves_counter,
+                diff: diff.verif_words(),
+            },
+        }
+    }
+
+    fn data_of_mut(page: &PageMut) -> PageData {
+        PageData {
+            nodes: (0..NODES_PER_PAGE).map(|i| page.node(i)).collect(),
+            elided: u64::from_le_bytes(page.elided_children().to_bytes()),
+        }
+    }
+
+    fn data_of(page: &Page) -> PageData {
+        PageData {
+            nodes: (0..NODES_PER_PAGE).map(|i| page.node(i)).collect(),
+            elided: u64::from_le_bytes(page.elided_children().to_bytes()),
+        }
+    }
+
+    /// The content `fresh` hands out: `None` = all slots zero, `Some(g)` = slot `i` of page `p` holds
+    /// the 32 bytes `garbage_node(g, p, i)` (pool pages are not zeroed by the store either).
+    pub fn garbage_node(g: u8, page_id: &PageId, slot: usize) -> Node {
+        let mut n = [0u8; 32];
+        let d = page_id.depth() as u8;
+        let last = if page_id.depth() == 0 {
+            0
+        } else {
+            page_id.child_index_at_level(page_id.depth() - 1).to_u8()
+        };
+        // byte 0 decides the node kind the garbage imitates (MSB set = leaf).
+        n[0] = g.wrapping_mul(37).wrapping_add((slot as u8).wrapping_mul(101)).wrapping_add(last);
+        n[1] = g;
+        n[2] = slot as u8;
+        n[3] = d;
+        n[4] = last;
+        for (i, b) in n.iter_mut().enumerate().skip(5) {
+            *b = g.wrapping_add(i as u8);
+        }
+        n
+    }
+
+    /// An in-memory implementation of the walker's `PageSet` trait.
+    pub struct VerifPageSet {
+        pool: PagePool,
+        map: HashMap<PageId, (Page, PageOrigin)>,
+        garbage: Option<u8>,
+    }
+
+    impl VerifPageSet {
+        fn build(&self, page_id: &PageId, data: &PageData) -> Page {
+            assert_eq!(data.nodes.len(), NODES_PER_PAGE);
+            let mut page = PageMut::pristine_empty(&self.pool, page_id);
+            for (i, n) in data.nodes.iter().enumerate() {
+                page.set_node(i, *n);
+            }
+            page.set_elided_children(&ElidedChildren::from_bytes(data.elided.to_le_bytes()));
+            page.freeze()
+        }
+    }
+
+    impl PageSet for VerifPageSet {
+        fn fresh(&self, page_id: &PageId) -> PageMut {
+            let mut page = PageMut::pristine_empty(&self.pool, page_id);
+            for i in 0..NODES_PER_PAGE {
+                page.set_node(
+                    i,
+                    match self.garbage {
+                        None => [0u8; 32],
+                        Some(g) => garbage_node(g, page_id, i),
+                    },
+                );
+            }
+            page
+        }
+
+        fn contains(&self, page_id: &PageId) -> bool {
+            self.map.contains_key(page_id)
+        }
+
+        fn get(&self, page_id: &PageId) -> Option<(Page, PageOrigin)> {
+            self.map.get(page_id).map(|(p, o)| (p.clone(), o.clone()))
+        }
+
+        fn insert(&mut self, page_id: PageId, page: Page, page_origin: PageOrigin) {
+            self.map.insert(page_id, (page, page_origin));
+        }
+    }
+
+    /// One page of the walker's stack (everything but the node slots).
+    #[derive(Clone, Debug, PartialEq, Eq)]
+    pub struct StackView {
+        pub page_id: PageId,
+        pub diff: [u64; 2],
+        pub bucket: Option<Bucket>,
+        pub page_leaves_counter: Option<u64>,
+        pub prev_children_leaves_counter: Option<u64>,
+        pub children_leaves_counter: Option<u64>,
+        pub elided: u64,
+        pub reconstruction_diff: Option<[u64; 2]>,
+    }
+
+    /// The private state of the walker between two calls.
+    #[derive(Clone, Debug, PartialEq, Eq)]
+    pub struct StateView {
+        pub last_position: Option<Vec<bool>>,
+        pub position: Vec<bool>,
+        pub root: Node,
+        pub child_page_roots: usize,
+        pub output_pages: usize,
+        pub stack: Vec<StackView>,
+        pub sibling_stack: Vec<(Node, usize)>,
+        pub prev_node: Option<Node>,
+    }
+
+    /// A page of the output.
+    #[derive(Clone, Debug, PartialEq, Eq)]
+    pub struct UpdatedView {
+        pub page_id: PageId,
+        pub page: PageData,
+        pub diff: [u64; 2],
+        pub bucket: Bucket,
+    }
+
+    /// `Output`.
+    #[derive(Clone, Debug, PartialEq, Eq)]
+    pub struct OutputView {
+        /// `Some` for `Output::Root`.
+        pub root: Option<Node>,
+        /// the list of `Output::ChildPageRoots` (empty for `Output::Root`).
+        pub child_page_roots: Vec<(Vec<bool>, Node)>,
+        pub pages: Vec<UpdatedView>,
+    }
+
+    /// A page `reconstruct_pages` yields.
+    #[derive(Clone, Debug, PartialEq, Eq)]
+    pub struct ReconstructedView {
+        pub page_id: PageId,
+        pub page: PageData,
+        pub diff: [u64; 2],
+        pub page_leaves_counter: u64,
+        pub children_leaves_counter: u64,
+    }
+
+    fn bits_of(pos: &TriePosition) -> Vec<bool> {
+        if pos.is_root() {
+            Vec::new()
+        } else {
+            pos.path().iter().by_vals().collect()
+        }
+    }
+
+    /// `TriePosition::new()` for the empty path, `from_bitslice` otherwise.
+    pub fn position(bits: &[bool]) -> TriePosition {
+        if bits.is_empty() {
+            TriePosition::new()
+        } else {
+            let mut bv: BitVec<u8, Msb0> = BitVec::new();
+            for b in bits {
+                bv.push(*b);
+            }
+            TriePosition::from_bitslice(&bv)
+        }
+    }
+
+    fn stack_view(p: &StackPage) -> StackView {
+        StackView {
+            page_id: p.page_id.clone(),
+            diff: p.diff.verif_words(),
+            bucket: p.bucket_info.as_ref().map(bucket_out),
+            page_leaves_counter: p.page_leaves_counter,
+            prev_children_leaves_counter: p.prev_children_leaves_counter,
+            children_leaves_counter: p.children_leaves_counter,
+            elided: u64::from_le_bytes(p.elided_children.to_bytes()),
+            reconstruction_diff: p.reconstruction_diff.as_ref().map(|d| d.verif_words()),
+        }
+    }
+
+    fn updated_view(p: &UpdatedPage) -> UpdatedView {
+        UpdatedView {
+            page_id: p.page_id.clone(),
+            page: data_of_mut(&p.page),
+            diff: p.diff.verif_words(),
+            bucket: bucket_out(&p.bucket_info),
+        }
+    }
+
+    /// The real `PageWalker<Blake3Hasher>` over a [`VerifPageSet`]. Every method forwards to the method of
+    /// the same name; a panic of the walker unwinds through the call (the walker must be discarded then).
+    pub struct WalkerSim {
+        set: VerifPageSet,
+        walker: Option<PageWalker<Blake3Hasher>>,
+    }
+
+    impl WalkerSim {
+        pub fn new() -> Self {
+            WalkerSim {
+                set: VerifPageSet {
+                    pool: PagePool::new(),
+                    map: HashMap::new(),
+                    garbage: None,
+                },
+                walker: None,
+            }
+        }
+
+        /// What `PageSet::fresh` hands out from now on.
+        pub fn set_garbage(&mut self, garbage: Option<u8>) {
+            self.set.garbage = garbage;
+        }
+
+        pub fn set_insert(&mut self, page_id: PageId, data: &PageData, origin: &Origin) {
+            let page = self.set.build(&page_id, data);
+            self.set.insert(page_id, page, origin_in(origin));
+        }
+
+        pub fn set_remove(&mut self, page_id: &PageId) -> bool {
+            self.set.map.remove(page_id).is_some()
+        }
+
+        pub fn set_clear(&mut self) {
+            self.set.map.clear();
+        }
+
+        pub fn set_get(&self, page_id: &PageId) -> Option<(PageData, Origin)> {
+            self.set
+                .map
+                .get(page_id)
+                .map(|(p, o)| (data_of(p), origin_out(o)))
+        }
+
+        pub fn set_ids(&self) -> Vec<PageId> {
+            let mut v: Vec<PageId> = self.set.map.keys().cloned().collect();
+            v.sort();
+            v
+        }
+
+        /// `PageWalker::new`; `inhibit_elision` = the verification twin of the test-only switch.
+        pub fn walker_new(&mut self, root: Node, parent_page: Option<PageId>, inhibit_elision: bool) {
+            let mut w = PageWalker::<Blake3Hasher>::new(root, parent_page);
+            w.verif_inhibit_elision = inhibit_elision;
+            self.walker = Some(w);
+        }
+
+        pub fn has_walker(&self) -> bool {
+            self.walker.is_some()
+        }
+
+        pub fn drop_walker(&mut self) {
+            self.walker = None;
+        }
+
+        pub fn advance(&mut self, new_pos: TriePosition) {
+            self.walker.as_mut().expect("no walker").advance(new_pos)
+        }
+
+        pub fn advance_and_replace(&mut self, new_pos: TriePosition, ops: Vec<(KeyPath, ValueHash)>) {
+            let set = &self.set;
+            self.walker
+                .as_mut()
+                .expect("no walker")
+                .advance_and_replace(set, new_pos, ops)
+        }
+
+        pub fn advance_and_place_node(&mut self, new_pos: TriePosition, node: Node) {
+            let set = &self.set;
+            self.walker
+                .as_mut()
+                .expect("no walker")
+                .advance_and_place_node(set, new_pos, node)
+        }
+
+        pub fn siblings(&self) -> Vec<(Node, usize)> {
+            self.walker.as_ref().expect("no walker").siblings().to_vec()
+        }
+
+        pub fn state(&self) -> StateView {
+            let w = self.walker.as_ref().expect("no walker");
+            StateView {
+                last_position: w.last_position.as_ref().map(bits_of),
+                position: bits_of(&w.position),
+                root: w.root,
+                child_page_roots: w.child_page_roots.len(),
+                output_pages: w.output_pages.len(),
+                stack: w.stack.iter().map(stack_view).collect(),
+                sibling_stack: w.sibling_stack.clone(),
+                prev_node: w.prev_node,
+            }
+        }
+
+        /// The node slots of the page on top of the walker's stack.
+        pub fn stack_top_page(&self) -> Option<PageData> {
+            let w = self.walker.as_ref().expect("no walker");
+            w.stack.last().map(|p| {
+                let mut d = data_of_mut(&p.page);
+                // the bitfield lives in the stack entry until the page is popped.
+                d.elided = u64::from_le_bytes(p.elided_children.to_bytes());
+                d
+            })
+        }
+
+        /// `PageWalker::conclude` (consumes the walker).
+        pub fn conclude(&mut self) -> OutputView {
+            let w = self.walker.take().expect("no walker");
+            match w.conclude() {
+                Output::Root(root, pages) => OutputView {
+                    root: Some(root),
+                    child_page_roots: Vec::new(),
+                    pages: pages.iter().map(updated_view).collect(),
+                },
+                Output::ChildPageRoots(roots, pages) => OutputView {
+                    root: None,
+                    child_page_roots: roots.iter().map(|(p, n)| (bits_of(p), *n)).collect(),
+                    pages: pages.iter().map(updated_view).collect(),
+                },
+            }
+        }
+
+        /// `reconstruct_pages` with `page` = the page stored under `page_id` in the set (as `seek` calls
+        /// it). `None` in the outer option: no such page in the set. The first reconstructed page is
+        /// inserted into the set by `reconstruct` itself; inserting the results is the caller's job.
+        pub fn reconstruct(
+            &mut self,
+            page_id: PageId,
+            position: TriePosition,
+            ops: Vec<(KeyPath, ValueHash)>,
+        ) -> Option<Option<Vec<ReconstructedView>>> {
+            let (page, _) = self.set.get(&page_id)?;
+            let res =
+                reconstruct_pages::<Blake3Hasher>(&page, page_id, position, &mut self.set, ops);
+            Some(res.map(|it| {
+                it.map(|(page_id, page, diff, plc, clc)| ReconstructedView {
+                    page_id,
+                    page: data_of(&page),
+                    diff: diff.verif_words(),
+                    page_leaves_counter: plc,
+                    children_leaves_counter: clc,
+                })
+                .collect()
+            }))
+        }
+
+        /// The free function `count_leaves` on a page with these slots.
+        pub fn count_leaves(&self, page_id: &PageId, data: &PageData) -> u64 {
+            let page = self.set.build(page_id, data).deep_copy();
+            count_leaves::<Blake3Hasher>(&page)
+        }
+    }
 }
 
 #[cfg(test)]
